@@ -11,7 +11,6 @@ CONSTANTS
   LowSet = {}
   SeedTimes = {}
   MaxCalls = 0
-INVARIANTS MaxIsMax
 CONSTRAINT Mark
 POSTCONDITION Accepted
 VIEW TView
